@@ -113,6 +113,60 @@ def has_field_pred(p):
     return p.get("op") == "field"
 
 
+_FRAG = None
+
+
+def finding_open(ck, fid):
+    """is the finding open? central known_findings.json decides; an id it does not know yet (fragment not merged by
+    tools/merge.py so far) is looked up in the read-only fragment props/C08/findings.json"""
+    global _FRAG
+    if any(x["id"] == fid for x in ck.findings):
+        return ck.match_finding(fid) is not None
+    if _FRAG is None:
+        try:
+            _FRAG = {x["id"]: x for x in json.load(open(os.path.join(HERE, "findings.json")))["findings"]}
+        except (OSError, ValueError):
+            _FRAG = {}
+    return _FRAG.get(fid, {}).get("status") == "open"
+
+
+def fault_stage(ck):
+    """in-process fault stage (harness cmd/c08f): under ONE injected storage read error a query must fail or be correct"""
+    fbin = ck.go_build("./cmd/c08f", "c08f")
+    if not fbin:
+        return {}
+    n = 25 if ck.tier == "quick" else 120
+    wd = os.path.join(ck.work, "fault")
+    os.makedirs(wd, exist_ok=True)
+    rc, out = ck.run([fbin, wd, str(n)], timeout=900, env={"HOME": ck.work})
+    cases = [json.loads(l)["faultcase"] for l in out.splitlines() if l.startswith('{"faultcase"')]
+    done = [json.loads(l)["faultdone"] for l in out.splitlines() if l.startswith('{"faultdone"')]
+    if rc != 0 or not cases or not done:
+        ck.broken.append("harness c08f failed rc=%d faulted runs=%d queries=%d: %s" % (rc, len(cases), len(done), out[-600:]))
+        return {}
+    known, bad = 0, []
+    for c in cases:
+        if not c.get("silent_wrong"):
+            continue
+        is_agg = re.match(r"SELECT \w+\(", c["sql"]) is not None
+        # signature of C08-read-error-swallowed: the failed read fetched a chunk-meta / meta-index block, or the statement
+        # is an aggregate (served by the aggregate tag-set cursors / the statistics readers)
+        if (c.get("read") == "meta" or is_agg) and finding_open(ck, "C08-read-error-swallowed"):
+            known += 1
+        else:
+            bad.append(c)
+    if known:
+        ck.known_finding("C08-read-error-swallowed", FINDING_TEXT["C08-read-error-swallowed"])
+    for c in sorted(bad, key=lambda c: (c["want_rows"], c["k"]))[:1]:
+        ck.violation({"kind": "direct-oracle-fault", "what": "under one injected read error (read #%d of the statement, %s block of %s) the "
+                      "statement reported success but returned %d of %d rows (%d such runs)" % (
+                          c["k"], c.get("read"), c["file"], c["rows"], c["want_rows"], len(bad)), "faultcase": c}, tag="fault")
+    return {"faulted_runs": len(cases), "queries": len(done), "errors": sum(1 for c in cases if c.get("err")),
+            "correct_without_error": sum(1 for c in cases if not c.get("err") and c["same"]),
+            "silent_wrong_known": known, "silent_wrong_unexplained": len(bad),
+            "rule": "one run = one statement with the k-th read of a data file failing, k = 0.. until the statement no longer reaches it"}
+
+
 def explain(case, f):
     """ids of the known findings whose signature the failing (query, configuration) satisfies"""
     q, ft, cf = case["query"], case["features"], f["config"]
@@ -359,6 +413,8 @@ FINDING_TEXT = {
     "C08-time-window-agg-store": "GROUP BY time() aggregate with a small inner_chunk_size over rows that lack the aggregated field: an empty piece "
                                  "of one series makes the store-side aggregate cursor continue its pending time window into the next series / file "
                                  "(values counted twice or in the wrong partial result)",
+    "C08-read-error-swallowed": "a failed read of a data file during an aggregate query (or of a chunk-meta block during any query) is logged or "
+                                "taken for 'cursor exhausted': the statement succeeds with the rows of one series / file missing",
     "C08-desc-agg-overlapping-files": "descending aggregate (time buckets or field filter) over overlapping sources (out-of-order files / memtable): "
                                       "the newest ordered file is treated as the last one and swallows all out-of-order rows (same root cause as "
                                       "C02-desc-filecursor-lastfile)",
@@ -556,6 +612,8 @@ def main(ck):
 
     # ---- (C1) operator level: the real FillTransform on every cut of small streams
     op_cov = op_level(ck, ok, known_counts)
+    # ---- fault stage: error-or-correct under one injected storage read error
+    ck.cov["fault_stage"] = fault_stage(ck)
 
     # ---- coverage
     hist = {}
